@@ -41,6 +41,11 @@ def run_(ctx):
     ctx.rule = ("a case = (call mix, bytes delivered caller->callee before the cut, bytes delivered callee->caller, chunk "
                 "sizes or split schedules, way the connection ends, reason class of the ending, other callables / a second connection using the "
                 "shared eventual queue, what happens to stalled/late work afterwards) on two real Brokers, or a "
+                "the same with traffic in the other direction (the peer's one-way / two-way / late / failing calls on an object of "
+                "the calling Broker: never delivered / all but 3 bytes / completely parsed in the reactor turn in which the "
+                "connection ends / run / a run batch plus a queued batch), or the connection ended by foolscap's own "
+                "inactivity timer (connectionTimedOut called directly, or disconnectTimeout [+ keepaliveTimeout] set and the "
+                "virtual clock run past it while the peer is silent: then DeadReferenceError whatever reason foolscap picks), or a "
                 "random abstract op sequence executed through the real callRemote/getRequest/complete/fail/finish, or three real "
                 "Tubs with a call whose argument is a third-party reference followed by 0..5 calls that arrive while it waits; "
                 "distinct = distinct case tuple; non-trivial = at least one two-way request was in the table when the "
@@ -107,7 +112,7 @@ def one(ctx, impl, traces, tag, cfg, counter=[0]):
             r = impl.scenario(cfg["calls"], cfg["cutA"], cfg["cutB"], cfg.get("chunkA", 7), cfg.get("chunkB", 7),
                               cfg.get("loss", "lost"), cfg.get("stall", "after"), tuple(cfg.get("after", ("ok", "oneway"))),
                               cfg.get("reason"), tuple(cfg["probe"]) if cfg.get("probe") else None,
-                              tuple(tuple(b) for b in cfg.get("bystanders", ())), cfg.get("other"))
+                              tuple(tuple(b) for b in cfg.get("bystanders", ())), cfg.get("other"), cfg.get("reverse"))
     except Exception as e:
         import traceback
         ctx.fail("oracle/exception-escaped", "an exception escaped dataReceived/connectionLost/callRemote: %r on %r" % (e, cfg),
@@ -296,6 +301,34 @@ def wire_sweep(ctx, impl, traces):
     reason_sweep(ctx, impl, traces)
     chunk_sweep(ctx, impl, traces)
     queue_sweep(ctx, impl, traces)
+    reverse_sweep(ctx, impl, traces)
+
+
+REVERSE_CALLS = [["oneway"], ["ok"], ["oneway", "ok", "late", "oneway"], ["late", "boom"], ["big", "oneway", "nomethod"],
+                 ["oneway_unsendable", "oneway"]]
+
+
+def reverse_sweep(ctx, impl, traces):
+    """the calling Broker is a callee too: the peer's calls (one-way, two-way, late, failing) on one of ITS objects, in every
+    state when the connection ends -- never delivered / all but 3 bytes delivered / completely parsed in the very reactor
+    turn in which the connection ends (waiting in inboundDeliveryQueue) / run (late ones hanging) / a run batch plus a
+    queued batch -- x 0..2 own calls outstanding x every way of ending the connection.  Quick: every (peer calls, state)
+    pair with "lost" and one rotating other ending (fixed, not drawn); thorough: the full product and cuts of both directions"""
+    thorough = ctx.tier == "thorough"
+    mixes = [["late", "ok"], ["late"], []] if thorough else [["late", "ok"], ["late"]]
+    n = 0
+    for mix in mixes:
+        for rc in REVERSE_CALLS:
+            for deliver in impl.REVERSE_DELIVER:
+                n += 1
+                losses = impl.LOSS_MODES if thorough else ["lost", impl.LOSS_MODES[1 + n % (len(impl.LOSS_MODES) - 1)]]
+                for loss in losses:
+                    for cut in ([(10 ** 9, 0), (10 ** 9, 10 ** 9), (0, 0), (30, 0), (10 ** 9, 20)] if thorough else [(10 ** 9, 0)]):
+                        cfg = dict(calls=mix, cutA=cut[0], cutB=cut[1], loss=loss, chunkA=50, chunkB=50,
+                                   reverse=dict(calls=rc, deliver=deliver))
+                        one(ctx, impl, traces, "reverse", cfg)
+                        ctx.hist("reverse_state", deliver)
+    ctx.sample(dict(kind="reverse", cfg=cfg))
 
 
 def queue_sweep(ctx, impl, traces):
